@@ -152,6 +152,7 @@ func (x *ChanPubSub[C, V]) SubscribeContext(ctx context.Context) iter.Seq[V] {
 					return
 				}
 
+				verifHook("pubsub.iter.received")
 				x.Wait()
 
 				if !yield(v) {
@@ -188,6 +189,7 @@ func (x *ChanPubSub[C, V]) Send(value V) (sent int) {
 		}
 	}()
 
+	verifHook("pubsub.send.excl")
 	x.checkBroken() // again (attempt to mitigate deadlocks caused by borked state)
 
 	// we need to know the subscribers, so we can add to x.ping
@@ -197,6 +199,7 @@ func (x *ChanPubSub[C, V]) Send(value V) (sent int) {
 		return 0 // no subscribers (slow path)
 	}
 
+	verifHook("pubsub.send.counted")
 	x.sanityCheckSubscribersDelta(subscribers, 0) // just because
 
 	var success bool
@@ -211,9 +214,11 @@ func (x *ChanPubSub[C, V]) Send(value V) (sent int) {
 		panic(chanPubSubStateInvariantViolation)
 	}
 
+	verifHook("pubsub.send.armed")
 	// ping! (send to channel)
 	sent = x.ping.Send(value) // N.B. supports concurrent decrements
 
+	verifHook("pubsub.send.delivered")
 	skipSendingUnlock = true
 	x.sendingMu.Unlock() // we can add subscribers while waiting for pongs
 
@@ -294,10 +299,13 @@ func (x *ChanPubSub[C, V]) Add(delta int) (subscribers int) {
 		ok := x.sendingMu.TryRLock()
 		// N.B. this loop is to handle state transition (send in progress)
 		for !ok && x.ping.Add(0) == 0 {
+			verifHook("pubsub.unsub.spin")
 			x.checkBroken() // attempts to mitigate deadlock risk on misuse...
 			ok = x.sendingMu.TryRLock()
 		}
+		verifHook("pubsub.unsub.decided")
 		subscribers = x.addSubscribers(delta)
+		verifHook("pubsub.unsub.counted")
 		if ok {
 			x.sendingMu.RUnlock() // unlock, before possible panics
 		}
